@@ -267,6 +267,37 @@ func TestCuts(t *testing.T) {
 	h.R.Extra("seed_sources", len(sd))
 }
 
+// TestEveryCodePoint - every Unicode scalar value, placed (a) inside a text literal before a
+// syntax error on the same line, (b) as the offending character itself, (c) inside an
+// identifier before the error, (d) in a comment line above the error: the front end must
+// reject (or accept) cleanly and the error must render (the renderer measures the display
+// width of every character before the error position)
+func TestEveryCodePoint(t *testing.T) {
+	shard, nsh := h.Shard(), h.NShards()
+	templates := []string{"令A = “%c” 令B = 2", "令A = 1 %c 令", "令A%c = = 1", "注：%c\n令A = “x%c”」"}
+	if !h.Thorough() {
+		templates = templates[:2]
+	}
+	var n int64
+	for cp := rune(shard); cp <= 0x10FFFF; cp += rune(nsh) {
+		if cp >= 0xD800 && cp <= 0xDFFF {
+			continue
+		}
+		for ti, tpl := range templates {
+			src := strings.ReplaceAll(tpl, "%c", string(cp))
+			fails := checkFront(src)
+			n++
+			if len(fails) > 0 || (int(cp)%9973 == 0 && ti == 0) {
+				h.R.Case(t, "codepoint", src, srcCase{src}, []string{fmt.Sprintf("plane-%d", cp>>16)}, true, fails)
+			}
+		}
+	}
+	h.R.AddEvals(n)
+	h.R.AddDistinct(n)
+	h.R.Count("codepoint-sources", n)
+	h.R.Exhaustive("codepoint", fmt.Sprintf("every Unicode scalar value in %d source templates (shard %d/%d)", len(templates), shard, nsh))
+}
+
 func TestSeedsThemselves(t *testing.T) {
 	for _, s := range seeds() {
 		runBoth(t, "seed", s)
